@@ -319,7 +319,7 @@ fn check_result<T: LabelType>(af: &AAFramework<T>, exp: Option<&Expected>, multi
 
 /// returns (zone tag, accepted?) or a violation (what, message)
 pub fn check_input(fmt: Format, bytes: &[u8], probe_tokens: &[&str]) -> Result<(u8, bool), (String, String)> {
-    let note = || format!("{} reader on input {:?}", fmt.name(), String::from_utf8_lossy(bytes));
+    let note = || format!("{} reader on input {}", fmt.name(), show(bytes));
     crate::mem::with_note(&note, || check_input_inner(fmt, bytes, probe_tokens))
 }
 
@@ -411,6 +411,16 @@ pub fn plain_number_pub(t: &str) -> Option<u64> {
     plain_number(t)
 }
 
+/// an input quoted for a message (long inputs abbreviated; the replay file holds all bytes)
+fn show(bytes: &[u8]) -> String {
+    let t = String::from_utf8_lossy(bytes);
+    if t.chars().count() > 300 {
+        format!("{:?}... [{} bytes in all]", t.chars().take(200).collect::<String>(), bytes.len())
+    } else {
+        format!("{:?}", t)
+    }
+}
+
 #[derive(Default)]
 pub struct Acc {
     pub inputs: u64,
@@ -465,7 +475,7 @@ impl Acc {
                 let v = Violation {
                     property: "C13".into(),
                     key: key.clone(),
-                    message: format!("{} reader, input {:?} ({} generator): {}", fmt.name(), String::from_utf8_lossy(bytes), gen, msg),
+                    message: format!("{} reader, input {} ({} generator): {}", fmt.name(), show(bytes), gen, msg.chars().take(600).collect::<String>()),
                     case: json!({"engine": "reader", "format": fmt.name(), "bytes": bytes.to_vec()}),
                 };
                 match self.violations.get_mut(&key) {
@@ -782,6 +792,51 @@ fn sweep_long_lines(fmt: Format, probes: &[&str]) -> Acc {
         .reduce(Acc::default, Acc::merge)
 }
 
+/// lines whose length straddles every power of two from 2^7 to 2^17 (and 2^20 in the thorough tier):
+/// fixed-size read buffers and chunked copies show at these sizes only; the long line is followed
+/// by further declarations, which must not be lost
+fn sweep_buffer_boundaries(fmt: Format, probes: &[&str], thorough: bool) -> Acc {
+    let mut lens: Vec<usize> = vec![];
+    for k in 7..=17u32 {
+        for d in [-1i64, 0, 1] {
+            lens.push(((1i64 << k) + d) as usize);
+        }
+    }
+    if thorough {
+        lens.extend([(1 << 20) - 1, 1 << 20, (1 << 20) + 1]);
+    }
+    lens.par_iter()
+        .with_max_len(1)
+        .map(|&len| {
+            let mut acc = Acc::default();
+            let x = "x".repeat(len);
+            let files: Vec<String> = match fmt {
+                Format::Iccma => vec![
+                    format!("p af 2\n# {}\n1 2\n", x),
+                    format!("# {}\np af 2\n2 1\n", x),
+                    format!("p af 2\n1 2\n# {}\n2 1\n", x),
+                    format!("p af 2\n1 2\n# {}", x),
+                    format!("p af 2\n{}\n1 2\n", x),
+                    format!("p af 2\n1 2\n{}\n", x),
+                    format!("p af 2\n1 {}2\n", " ".repeat(len)),
+                ],
+                Format::Apx => vec![
+                    format!("arg(a).\narg(b).\n% {}\natt(a,b).\n", x),
+                    format!("% {}\narg(a).\narg(b).\natt(b,a).\n", x),
+                    format!("arg(a).\narg({}).\natt(a,{}).\natt({},a).\n", x, x, x),
+                    format!("arg(a).\narg(b).\natt(a,b).\n% {}", x),
+                    format!("arg(a).\n{}\narg(b).\n", x),
+                    format!("arg(a).\narg(b).\natt(a,b).\n{}.\n", x),
+                ],
+            };
+            for f in &files {
+                acc.feed(fmt, "buffer boundaries", f.as_bytes(), probes);
+            }
+            acc
+        })
+        .reduce(Acc::default, Acc::merge)
+}
+
 /// well-formed files far beyond the small scope (two- to four-digit indexes, labels of 10+ characters,
 /// thousands of lines) and their structural edits: the classifier is the same, only the sizes differ
 fn sweep_big_files(fmt: Format, probes: &[&str], thorough: bool) -> Acc {
@@ -937,7 +992,7 @@ fn sweep_check_command(fmt: Format, lines: &[&str], k: usize) -> Acc {
                     let v = Violation {
                         property: "C13".into(),
                         key: key.clone(),
-                        message: format!("{} file {:?}: {}", fmt.name(), String::from_utf8_lossy(bytes), msg),
+                        message: format!("{} file {}: {}", fmt.name(), show(bytes), msg),
                         case: json!({"engine": "check_cmd", "format": fmt.name(), "bytes": bytes.to_vec()}),
                     };
                     acc.violations.insert(key, (1, bytes.len(), v));
@@ -974,6 +1029,7 @@ pub fn run(tier: Tier) -> i32 {
         run_one(format!("{}: every well-formed file of U(<={}) in a menu of layouts", fmt.name(), 3), sweep_grammar(fmt, 3, probes), &mut total);
         run_one(format!("{}: one line of every length <= 130+ with one character of each UTF-8 width at every offset, in 7 syntactic positions", fmt.name()), sweep_long_lines(fmt, probes), &mut total);
         run_one(format!("{}: well-formed files of 10 structured families with 12 ... {} arguments (short and 20+-character labels / interleaved comments) and their line edits", fmt.name(), if thorough { 3000 } else { 1000 }), sweep_big_files(fmt, probes, thorough), &mut total);
+        run_one(format!("{}: lines of length 2^k-1, 2^k, 2^k+1 for k = 7..17{} in 6-7 syntactic positions, followed by further declarations", fmt.name(), if thorough { " and 20" } else { "" }), sweep_buffer_boundaries(fmt, probes, thorough), &mut total);
         let kc = if thorough { 3 } else { 2 };
         run_one(format!("{}: `crustabri check` as a process on the corpus, its line edits and all line sequences of length <= {}", fmt.name(), kc), sweep_check_command(fmt, lines, kc), &mut total);
     }
@@ -991,7 +1047,7 @@ pub fn run(tier: Tier) -> i32 {
         rep.n_violations += n - 1;
         rep.add_violation(v);
     }
-    rep.rule = "every input of seven exhaustively enumerated finite families per format is read by the real reader, and an eighth family is given to `crustabri check` as a process (exit status 0 / non-zero against the same zones); states = transitions = inputs; three-zone oracle: strict grammar => Ok with exactly the declared arguments (declaration order, ids) and attacks; the ill-formedness classes the property lists => Err; everything else: no requirement on accept/reject; in all zones no panic and a self-consistent result; read_arg_from_str probed on every accepted framework; distinct_nontrivial = inputs in the must-accept or must-reject zone".into();
+    rep.rule = "every input of eight exhaustively enumerated finite families per format is read by the real reader, and a ninth family is given to `crustabri check` as a process (exit status 0 / non-zero against the same zones); states = transitions = inputs; three-zone oracle: strict grammar => Ok with exactly the declared arguments (declaration order, ids) and attacks; the ill-formedness classes the property lists => Err; everything else: no requirement on accept/reject; in all zones no panic and a self-consistent result; read_arg_from_str probed on every accepted framework; distinct_nontrivial = inputs in the must-accept or must-reject zone".into();
     rep.bounds = json!({"token_string_length": ktok, "line_sequence_length": klin, "declared_sizes": "<= 10 in the exhaustive families, 12 ... 1000 [3000] in the structured big-file family"});
     rep.assumptions = vec!["the zone classifier (harness) is the specification of well-/ill-formedness; CRLF, irregular spacing, duplicate declarations, exotic number spellings are deliberately unspecified".into()];
     rep.finish()
